@@ -29,7 +29,8 @@ pub fn collect(tier: &str, caps: &Caps, rep: &Report) -> Vec<In> {
         let bound = match (tier, k) {
             (_, 1) => None,
             ("quick", 2) => Some(3),
-            (_, 2) => None,
+            // (all pairs in full are 3.6 M inputs; with the rest of the thorough tier that was 57 GB of resident state)
+            (_, 2) => Some(4),
             ("quick", _) => Some(3),
             // (triples dev(5) made 11 M inputs and 28 GB of resident state in the two processes)
             _ => Some(3),
@@ -58,7 +59,7 @@ pub fn collect(tier: &str, caps: &Caps, rep: &Report) -> Vec<In> {
         use super::Space;
         for enum_host in [false, true] {
             let sp = super::c14::TraitRep { max_instr: 3, enum_host };
-            let b = if tier == "quick" { Some(4) } else { Some(6) };
+            let b = if tier == "quick" { Some(4) } else { Some(5) };
             let st = explore(|ctx| sp.gen(ctx), b, caps, |ch, c| push("c14/trait-repeat", ch, c.tags.clone(), c.with_repeat.render()));
             rep.add_stats(&format!("c14/trait-repeat({})", if enum_host { "enum" } else { "struct" }), &format!("dev({})", b.unwrap()), &st);
         }
@@ -112,6 +113,16 @@ pub fn run(tier: &str) -> i32 {
     let caps = Caps::from_env(if tier == "quick" { 150.0 } else { 1500.0 });
     let ins = collect(tier, &caps, &rep);
     eprintln!("  {} distinct inputs", ins.len());
+    {
+        let mut per: std::collections::BTreeMap<String, usize> = Default::default();
+        for i in &ins {
+            *per.entry(i.space.split('/').next().unwrap_or("").to_string()).or_default() += 1;
+        }
+        eprintln!("  per space family: {:?}", per);
+        if std::env::var("VERIF_COUNT_ONLY").is_ok() {
+            return 0;
+        }
+    }
     let dir = format!("{}/work/c19-{}", crate::report::verif_dir(), std::process::id());
     let _ = std::fs::create_dir_all(&dir);
     let inp = format!("{}/in.jsonl", dir);
